@@ -208,6 +208,28 @@ pub fn replay(o: &Opts) -> Value {
                     }
                 }
             }
+            // ---- the root element named by the TYPE (no explicit root tag): the same verdict and the same bytes as with that
+            // name given explicitly (F01 with arbitrary names; the struct is rebuilt as a type given as data)
+            if ty == "F01" && dynty.is_none() && o.aspect == "c13" {
+                if let Some(name) = &root {
+                    let f01 = crate::dynser::Ty::Struct(vec![
+                        crate::dynser::Field { jkey: "@one".into(), ty: crate::dynser::Ty::Str },
+                        crate::dynser::Field { jkey: "@two".into(), ty: crate::dynser::Ty::Num },
+                    ]);
+                    let by_type = crate::dynser::ser_named(&f01, &b["v"], name);
+                    let explicit = ser(ty, &v, &SerOpts { quote: 1, indent: None, expand_empty: false, root: root.clone() });
+                    runs += 1;
+                    cmp += 1;
+                    let same = match (&by_type, &explicit) {
+                        (Ok(p), Ok(q)) => p == q,
+                        (Err(_), Err(_)) => true,
+                        _ => false,
+                    };
+                    if !same {
+                        note(&mut local_bad, &["c13"], "type-name-as-root-differs-from-explicit-root", json!({"name": name, "by_type_name": format!("{by_type:?}"), "explicit_root": format!("{explicit:?}")}));
+                    }
+                }
+            }
             for quote in 0..3u8 {
                 for indent in [None, Some((' ', 2)), Some(('\t', 1))] {
                     for expand in [false, true] {
@@ -269,6 +291,8 @@ pub fn replay(o: &Opts) -> Value {
                                     ("bom+decl", format!("\u{feff}<?xml version='1.0' encoding='utf-8' ?>\n{doc}")),
                                     ("prefixed", prefixed(&doc)),
                                     ("ns-scopes", ns_scopes(&doc)),
+                                    ("mixed-skip", mixed_skip(&doc, false)),
+                                    ("mixed-skip2", mixed_skip(&doc, true)),
                                 ];
                                 for (vname, vdoc) in &variants {
                                     let d = de_str(ty, vdoc);
@@ -348,6 +372,27 @@ pub fn replay(o: &Opts) -> Value {
         devs.insert("C14-1".into(), json!(known_c14_1));
     }
     json!({"behaviours": n, "runs": runs, "comparisons": cmp, "nontrivial": nontriv, "violations": viol, "samples": samples, "drift": d, "devs_used": devs})
+}
+
+/// Mixed content in front of everything else: an element the target skips whose content is (or ends with) text, followed by
+/// text that starts with blanks.  Whether a target captures that text or not, both entry points must agree on it.
+fn mixed_skip(doc: &str, child_first: bool) -> String {
+    let b = doc.as_bytes();
+    let (mut i, mut q) = (0usize, 0u8);
+    while i < b.len() {
+        match (q, b[i]) {
+            (0, b'"') | (0, b'\'') => q = b[i],
+            (0, b'>') => break,
+            (c, d) if c != 0 && c == d => q = 0,
+            _ => {}
+        }
+        i += 1;
+    }
+    if i >= b.len() || i == 0 || b[i - 1] == b'/' {
+        return doc.to_string();
+    }
+    let ins = if child_first { "<zz><b/>tail</zz>  lead " } else { "<zz>tail</zz>  lead " };
+    format!("{}{}{}", &doc[..=i], ins, &doc[i + 1..])
 }
 
 /// A presentation that exercises the namespace bookkeeping behind `xsi:nil`: the root binds prefix `x` to an ordinary
